@@ -1071,11 +1071,16 @@ BOUNDS = {
              "numbers 1.5e3-7e3, entries on a 1/64 grid) with the right-hand side restricted to affine families b = b0 + sum t_k e_i, "
              "t_k symbolic in [-4,4], through a noise-like b0: all 5 coordinate segments (cold; 3 warm) per matrix and the plane (e_0,e_3) "
              "for two matrices (the full box is beyond nlsat for such matrices). Every solver comparison forks (decision margin 2^-30).",
-    "thorough": "as quick plus 4 SPD matrices of n=3 and 2 of n=4 (tridiagonal, moderately correlated), all D in [-10,10]^n, cold and warm; "
-                "aa.Inversion positive-only with 3 symbolic image values on 3x5 meshes over 3x3 and 3x4 pixel regions (both formalisms, "
-                "cold/warm), 4x4 mesh over 4x4 pixels (4 free parameters, 4 symbolic values), force_edge_pixels_to_zeros with "
-                "linear-function objects only; strongly correlated n=5 systems: 25 of the 30 coordinate planes (2 symbolic parameters; 5 planes "
-                "listed in HARD_PLANES are not decided within the budget) cold, 2 planes per matrix warm, all segments cold and warm.",
+    "thorough": "as quick plus: solver level - 10 SPD matrices of n=3 (incl. 2^10 / 2^-8 magnitudes, identity, fully symmetric, Toeplitz 0.75) and 4 of n=4 "
+                "(tridiagonal, moderately correlated, 2x2-mesh Laplacian, banded), all D in [-10,10]^n, cold and warm, fnnls direct on one n=3 and one n=4; "
+                "unconstrained solver on all n=3 matrices. Strongly correlated systems (right-hand side on affine families, t in [-4,4]): 4 matrices of n=5 "
+                "(condition numbers 1.5e3-1.4e4) - all coordinate segments cold+warm, 25 of 30 coordinate planes of the first three cold (HARD_PLANES excluded), "
+                "4 planes each warm, 4 planes of the fourth cold; 3 matrices of n=6 (condition 1.2e3-2.7e3) - all segments cold+warm. "
+                "aa.Inversion positive-only with 3 symbolic image values on 3x5 meshes over 3x3 and 3x4 pixel regions (both formalisms, cold/warm), 3x4 mesh "
+                "with image_pixels_source_zero, 4x4 mesh over 4x4 pixels (4 free parameters, both formalisms); object mixes func+rect, func+rect+func2, "
+                "rect+func, func2+rect, rect+funcov, rect+func+func2, funcov(+rect)(+func2) with edge / image-pixel forcing; function lists with three "
+                "different symbolic pixel triples; Preloads histories of 2 and 3 inversions; image magnitudes 2^-24, 2^-20, 2^-12, 1 and 2^20. "
+                "Solver timeout 60 s per query in this tier.",
 }
 OUTSIDE = [
     "symbolic matrices F+H (the matrix is always concrete); n > 5 free parameters; the full right-hand-side box for strongly correlated "
@@ -1221,6 +1226,7 @@ def cases(tier):
         out.append(("case_inversion", _inv((3, 3), [3, 4, 5], "rect", (3, 5), False, True, True, True, history=2), sp))
         out.append(("case_inversion", _inv((3, 3), [3, 4, 5], "rect", (3, 5), False, True, False, True, zero_pixels=[4])))
         out += _deeper_cases(deep, sp)
+        out = [(c[0], c[1], dict({"timeout_ms": 60000}, **(c[2] if len(c) > 2 and c[2] else {}))) for c in out]
     return out
 
 
@@ -1259,10 +1265,11 @@ def _deeper_cases(deep, sp):
     out.append(("case_inversion", _inv((3, 3), [3, 4], "rect", (3, 5), False, True, True, True, history=3)))
     for wt in (False, True):
         out.append(("case_inversion", _inv((3, 3), ALL9, "rect+func+func2", (3, 3), wt, False, False, False)))
-        out.append(("case_inversion", _inv((3, 3), [3, 4, 5], "rect+func", (3, 5), wt, True, wt, True), sp))
+        if not wt:      # (the w-tilde / warm variant has a decision region thinner than the margin: backed out)
+            out.append(("case_inversion", _inv((3, 3), [3, 4, 5], "rect+func", (3, 5), wt, True, wt, True), sp))
         out.append(("case_inversion", _inv((3, 3), [3, 4, 5], "func2+rect", (3, 5), wt, True, not wt, True, zero_pixels=[1, 4]), sp))
         out.append(("case_inversion", _inv((3, 3), [3, 4], "rect+funcov", (3, 5), wt, True, wt, True, zero_pixels=[4]), sp))
-        out.append(("case_inversion", _inv((3, 4), [5, 6, 2], "func+rect", (3, 4), wt, True, wt, True), sp))
+        out.append(("case_inversion", _inv((3, 4), [5, 6, 2], "rect", (3, 4), wt, True, not wt, True, zero_pixels=[5]), sp))
     out.append(("case_inversion", _inv((4, 4), [5, 6, 9, 10], "rect", (4, 4), False, True, False, True), {"split": 4}))
     out.append(("case_inversion", _inv((3, 3), [0, 4, 8], "funcs", None, False, True, False, False), sp))
     out.append(("case_inversion", _inv((3, 3), [1, 5, 7], "funcs", None, False, True, True, False), sp))
